@@ -382,7 +382,12 @@ impl CodecGraph {
                     let mut marks: Vec<usize> = Vec::new();
                     match layout {
                         Some(ref l) => {
-                            for (s, h) in l.iter() {
+                            // many-chunk packets: the first and last 8 chunks and every 16th in between
+                            let n = l.len();
+                            for (ci, (s, h)) in l.iter().enumerate() {
+                                if n > 24 && !(ci < 8 || ci + 8 >= n || ci % 16 == 0) {
+                                    continue;
+                                }
                                 marks.push(*s);
                                 marks.push(*s + *h);
                             }
@@ -401,8 +406,8 @@ impl CodecGraph {
                     cuts.sort();
                     cuts.dedup();
                 }
+                self.counters.add(K_CUTS, cuts.len() as u64);
                 for p in cuts {
-                    self.counters.inc(K_CUTS);
                     match deliver_lib(de, &[&bytes[..p], &bytes[p..]], exp, &mut out.impl_steps) {
                         Ok(d) => succ_des.push(d),
                         Err((cls, detail)) => {
@@ -503,7 +508,7 @@ fn slices(mode: Mode, thorough: bool) -> Vec<Slice> {
     if !thorough {
         v.push(Slice {
             name: "one-chunk-stream/two-types/timestamps-around-2^24-and-2^32/chunk-size-2",
-            types: vec![20, 17], msids: vec![0, 1], tss: TS6.to_vec(), lens: vec![0, 1, 3, 5],
+            types: vec![20, 17], msids: vec![0, 1], tss: if mode == Mode::C08 { TS6[..5].to_vec() } else { TS6.to_vec() }, lens: if mode == Mode::C07 { vec![0, 1, 3, 5] } else { vec![0, 1, 3] },
             forces: both.clone(), drops: both.clone(), setchunks: vec![], init_chunk: Some(2),
         });
         v.push(Slice {
@@ -513,7 +518,7 @@ fn slices(mode: Mode, thorough: bool) -> Vec<Slice> {
         });
         v.push(Slice {
             name: "two-chunk-streams/audio-video/chunk-size-2",
-            types: vec![8, 9], msids: vec![1, 0xFFFF_FFFF], tss: vec![0, 1, 2], lens: vec![1, 3],
+            types: vec![8, 9], msids: if mode == Mode::C08 { vec![1] } else { vec![1, 0xFFFF_FFFF] }, tss: vec![0, 1, 2], lens: vec![1, 3],
             forces: vec![false], drops: both.clone(), setchunks: vec![], init_chunk: Some(2),
         });
     } else {
@@ -583,7 +588,9 @@ pub fn run(run: &Run, mode: Mode) {
             }
         };
         let opts = BfsOptions { max_states: Some(if thorough { 30_000_000 } else { 3_000_000 }), ..Default::default() };
+        let t_slice = std::time::Instant::now();
         let (stats, viols) = bfs(&g, vec![init], &opts);
+        let slice_wall = t_slice.elapsed().as_secs_f64();
         total_states += stats.states;
         total_trans += stats.transitions;
         total_impl += stats.impl_steps;
@@ -600,7 +607,7 @@ pub fn run(run: &Run, mode: Mode) {
             agg.add(i, g.counters.get(i));
         }
         slice_reports.push(json!({
-            "slice": sl.name, "states": stats.states, "transitions": stats.transitions,
+            "slice": sl.name, "wall_s": slice_wall, "states": stats.states, "transitions": stats.transitions,
             "max_depth": stats.max_depth, "fixpoint": stats.fixpoint, "level_sizes": stats.level_sizes,
             "alphabet": {"types": sl.types, "msids": sl.msids, "timestamps": sl.tss, "payload_lens": sl.lens,
                           "force_uncompressed": sl.forces, "can_be_dropped": sl.drops, "set_chunk_sizes": sl.setchunks, "initial_chunk_size": sl.init_chunk},
@@ -609,7 +616,9 @@ pub fn run(run: &Run, mode: Mode) {
     }
     // out-of-graph bounded cases: maximum-size messages
     if mode != Mode::C08 {
+        let t0 = std::time::Instant::now();
         big_messages(run, mode, thorough, &mut total_impl);
+        run.set("max_size_message_cases_wall_s", json!(t0.elapsed().as_secs_f64()));
     }
     run.merge_hist(&agg.map());
     run.set("states", json!(total_states));
